@@ -220,7 +220,13 @@ def assemble(prop, tier, seed, unit_results, fn_results, wall):
                                    "replay": {"status": "confirmed", "failed_clauses": [f.get("detail", "")], "inputs": f.get("witness")},
                                    "solver": "BND (bounded execution of the real code)"})
     # ---- classify violations against known findings; write replay files
-    os.makedirs(os.path.join(VERIF, "replays", prop), exist_ok=True)
+    rdir = os.path.join(VERIF, "replays", prop)
+    os.makedirs(rdir, exist_ok=True)
+    for old in os.listdir(rdir):       # replay files belong to one run
+        try:
+            os.remove(os.path.join(rdir, old))
+        except OSError:
+            pass
     lines = []
     new_violations = 0
     known_hits = []
